@@ -360,6 +360,10 @@ func (s *Server) serve(conn net.Conn, k int, st Step) {
 	nMsg, nAck := 0, 0
 	ack := func(m *Msg) {
 		b, _ := msgpack.Marshal(forwardprotocol.Ack{Ack: m.ChunkID})
+		// the acknowledgement is stamped before it is written: whatever the agent does because of it (end the session, open
+		// the next connection, send the next chunk) is then stamped later; stamping after the write let the reader of the
+		// next connection overtake this goroutine and made the chunk look unacknowledged when its successor arrived
+		ackClock := s.clock.Next()
 		wmu.Lock()
 		_ = conn.SetWriteDeadline(time.Now().Add(5 * time.Second))
 		_, err := conn.Write(b)
@@ -367,7 +371,7 @@ func (s *Server) serve(conn net.Conn, k int, st Step) {
 		if err == nil {
 			s.mu.Lock()
 			m.AckSent = true
-			m.AckClock = s.clock.Next()
+			m.AckClock = ackClock
 			s.mu.Unlock()
 		}
 	}
